@@ -1074,6 +1074,17 @@ def _math_function(op, *args):
     if name == "imag" and dtype == DataType.REAL:
         assert len(args) == 1
         return LiteralFloat(0.0)
+    if name in ("bessel_j", "bessel_y"):
+        # jn/yn take an integer order: a real order would silently be truncated
+        # (order 0 arrives as the float literal 0.0)
+        nu = args[0]
+        integral = isinstance(nu, LiteralInt) or (
+            isinstance(nu, LiteralFloat)
+            and not isinstance(nu.value, complex)
+            and float(nu.value).is_integer()
+        )
+        if not integral:
+            raise RuntimeError(f"Bessel functions of non-integer order are not supported: {op}")
     return MathFunction(name, args)
 
 
